@@ -404,5 +404,30 @@ def run(repo: Repo, tier: str) -> Report:
                 break
         rep.ob("R-FORMULA", AFILE, f"{cls}.{meth}", "nodata: explicit argument, then attrs['nodata'], else ValueError",
                first is not None and uses_attr and raises, "", f"{cls}.{meth}: nodata resolution")
+    # mean_grp accessor: group ids reach the kernel in its declared element type; num_groups counts the distinct ids; length validated
+    f = repo.method("hdc.algo.accessors", "PixelAlgorithms", "mean_grp")
+    site = msite[0]
+    gname = ast.unparse(site.call.args[2]) if len(site.call.args) > 2 else "?"
+    ngname = ast.unparse(site.call.args[3]) if len(site.call.args) > 3 else "?"
+    gpos = mg.params.index("groups") if "groups" in mg.params else 1
+    want_t = sorted({sig[gpos][0] for sig in mg.sigs})
+    casts = []
+    for n in ast.walk(f):
+        if isinstance(n, ast.Call) and n.keywords and ast.unparse(n.func) in ("np.array", "np.asarray", "numpy.array") and n.args and ast.unparse(n.args[0]) == gname:
+            casts += [k_.value.value for k_ in n.keywords if k_.arg == "dtype" and isinstance(k_.value, ast.Constant)]
+        if isinstance(n, ast.Call) and isinstance(n.func, ast.Attribute) and n.func.attr == "astype" and ast.unparse(n.func.value) == gname and n.args and isinstance(n.args[0], ast.Constant):
+            casts.append(n.args[0].value)
+    rep.ob("R-BIND", AFILE, "PixelAlgorithms.mean_grp", "group labels are converted to the element type the kernel declares for them", bool(casts) and all([c] == want_t for c in casts),
+           f"conversions to {casts}; mean_grp declares {want_t} (a narrower type wraps ids beyond its range)", f"{gname}: conversion dtype")
+    ngd = [norm_stmt(st.value) for st in ast.walk(f) if isinstance(st, ast.Assign) and isinstance(st.targets[0], ast.Name) and st.targets[0].id == ngname]
+    rep.ob("R-COVER", AFILE, "PixelAlgorithms.mean_grp", "num_groups is the number of distinct group ids (ids are 0..n-1, so every group is processed)",
+           ngd in ([f"np.unique({gname}).size"], [f"len(np.unique({gname}))"], [f"np.unique({gname}).shape[0]"]), f"{ngname} = {ngd}", f"{ngname} = number of distinct ids")
+    lens = [norm_stmt(n.test) for n in ast.walk(f) if isinstance(n, ast.If) and any(isinstance(x, ast.Raise) for x in n.body)]
+    rep.ob("R-VALIDATE", AFILE, "PixelAlgorithms.mean_grp", "the label array must have the length of the time axis (ValueError otherwise)",
+           any(t in (f"{gname}.size != self._obj.time.size", f"len({gname}) != len(self._obj.time)", f"{gname}.size != self._obj.sizes['time']") for t in lens),
+           f"raising tests {lens}", f"{gname}: length check")
+    from ..rules import r_truthy
+    r_truthy(rep, repo, "PixelAlgorithms", "mean_grp", ["nodata"], "0 is a legitimate nodata value (it is the one the test-suite uses); a truth test silently replaces or drops it")
+    r_truthy(rep, repo, "RollingWindowAlgos", "sum", ["nodata"], "0 is a legitimate nodata value (it is the one the test-suite uses); a truth test silently replaces or drops it")
     rep.floor("C17 obligations", len(rep.obls), 30)
     return rep
